@@ -29,55 +29,75 @@ import (
 type crossMod struct {
 	name  string
 	files map[string]string
-	pkgs  []string // dependencies first
+	pkgs  []string          // dependencies first
+	older map[string]string // an earlier version of the same sources: the type that flows through the packages differs
+}
+
+// olderOf: the fixed modules with another key type in the root map (and what has to follow in the user's code).
+func olderOf(files map[string]string) map[string]string {
+	o := map[string]string{}
+	rep := strings.NewReplacer("map[string]int{}", "map[uint16]int{}", "(s string)", "(s uint16)", "Has(\"x\")", "Has(7)",
+		"map[int64]bool{}", "map[uint16]bool{}", "Ks() []int64", "Ks() []uint16", "U() []string", "U() []uint16")
+	for f, t := range files {
+		o[f] = rep.Replace(t)
+	}
+	return o
 }
 
 // minted: a struct whose deriveEqual needs helper functions with minted names (deriveEqual_, deriveEqual_1, ...)
 const crossMinted = "type U struct{ N int }\n\ntype T struct {\n\tP     *U\n\tNames []string\n\tM     map[string][]int\n}\n\nfunc Eq(x, y *T) bool { return deriveEqual(x, y) }\n\n"
 
 func crossFixed() []crossMod {
+	ms := crossFixedNew()
+	for i := range ms {
+		ms[i].older = olderOf(ms[i].files)
+	}
+	return ms
+}
+
+func crossFixedNew() []crossMod {
 	b := "package b\n\nvar M = map[string]int{}\n\nvar Names = deriveKeys(M)\n"
 	return []crossMod{
 		{"generated-type-of-an-import+minted-helpers", map[string]string{
 			"b/b.go": b,
 			"a/a.go": "package a\n\nimport \"m/b\"\n\n" + crossMinted + "func Has(s string) bool { return deriveContains(b.Names, s) }\n",
-		}, []string{"b", "a"}},
+		}, []string{"b", "a"}, nil},
 		{"every-call-depends-on-the-import", map[string]string{
 			"b/b.go": b,
 			"a/a.go": "package a\n\nimport \"m/b\"\n\nfunc Has(s string) bool { return deriveContains(b.Names, s) }\n\nfunc U() []string { return deriveUnique(b.Names) }\n",
-		}, []string{"b", "a"}},
+		}, []string{"b", "a"}, nil},
 		{"nested-calls-in-the-import", map[string]string{
 			"b/b.go": "package b\n\nvar M = map[string]int{}\n\nvar Names = deriveUnique(deriveKeys(M))\n",
 			"a/a.go": "package a\n\nimport \"m/b\"\n\n" + crossMinted + "func Has(s string) bool { return deriveContains(b.Names, s) }\n",
-		}, []string{"b", "a"}},
+		}, []string{"b", "a"}, nil},
 		{"chain-of-three+own-nested-calls", map[string]string{
 			"c/c.go": "package c\n\nvar M = map[int64]bool{}\n\nvar Keys = deriveKeys(M)\n",
 			"b/b.go": "package b\n\nimport \"m/c\"\n\ntype V struct {\n\tA []int64\n\tB *V\n}\n\nvar Set = deriveSet(c.Keys)\n\nfunc Eq(x, y *V) bool { return deriveEqual(x, y) }\n",
 			"a/a.go": "package a\n\nimport \"m/b\"\n\n" + crossMinted + "func Ks() []int64 { return deriveKeys(b.Set) }\n\nfunc Own(m map[string]bool) map[string]struct{} { return deriveSetS(deriveKeysS(m)) }\n",
-		}, []string{"c", "b", "a"}},
+		}, []string{"c", "b", "a"}, nil},
 		{"two-independent-imports", map[string]string{
 			"b/b.go": b,
 			"c/c.go": "package c\n\nvar M = map[int]string{}\n\nvar Keys = deriveKeys(M)\n",
 			"a/a.go": "package a\n\nimport (\n\t\"m/b\"\n\t\"m/c\"\n)\n\n" + crossMinted + "func HasB(s string) bool { return deriveContainsB(b.Names, s) }\n\nfunc HasC(i int) bool { return deriveContainsC(c.Keys, i) }\n",
-		}, []string{"b", "c", "a"}},
+		}, []string{"b", "c", "a"}, nil},
 		{"dependent-with-external-test-package", map[string]string{
 			"b/b.go":          b,
 			"a/a.go":          "package a\n\nimport \"m/b\"\n\n" + crossMinted + "func Has(s string) bool { return deriveContains(b.Names, s) }\n",
 			"a/a_ext_test.go": "package a_test\n\nimport \"m/a\"\n\nfunc use() bool { return a.Has(\"x\") }\n",
-		}, []string{"b", "a"}},
+		}, []string{"b", "a"}, nil},
 		// the usual reason for an external test package: the test of b needs a, which imports b.  package b_test
 		// shares the directory (and derived.gen.go) of b; it has no derive calls and must not remove what b got
 		{"external-test-package-of-the-import-imports-the-dependent", map[string]string{
 			"b/b.go":          b,
 			"b/b_ext_test.go": "package b_test\n\nimport \"m/a\"\n\nfunc use() bool { return a.Has(\"x\") }\n",
 			"a/a.go":          "package a\n\nimport \"m/b\"\n\n" + crossMinted + "func Has(s string) bool { return deriveContains(b.Names, s) }\n",
-		}, []string{"b", "a"}},
+		}, []string{"b", "a"}, nil},
 	}
 }
 
 // crossRandom draws a module from the class: chain length, nesting in the dependencies, what the dependent
 // needs besides the imported type.
-func crossRandom(r *hx.Rand, i int) crossMod {
+func crossRandom(r *hx.Rand, i int, elem string) crossMod {
 	keys := []string{"string", "int", "int64", "float64", "uint8"}
 	n := 2 + r.Intn(2)
 	names := []string{"c", "b", "a"}[3-n:]
@@ -92,6 +112,9 @@ func crossRandom(r *hx.Rand, i int) crossMod {
 		}
 		if pi == 0 {
 			prevElem = hx.Pick(r, keys)
+			if elem != "" {
+				prevElem = elem // the earlier version of the module: same shape, another key type
+			}
 			fmt.Fprintf(&s, "var M = map[%s]bool{}\n\n", prevElem)
 			if r.Bool() {
 				s.WriteString("var Out = deriveUnique(deriveKeys(M))\n\n")
@@ -131,7 +154,7 @@ func crossRandom(r *hx.Rand, i int) crossMod {
 		}
 	}
 	sort.Strings(feats)
-	return crossMod{fmt.Sprintf("generated-%d(%d packages %s)", i, n, strings.Join(feats, ",")), files, names}
+	return crossMod{fmt.Sprintf("generated-%d(%d packages %s)", i, n, strings.Join(feats, ",")), files, names, nil}
 }
 
 // prevElemOf: the key type of the root map of a generated module (the parameter type of the last package's Has).
@@ -150,7 +173,10 @@ func runCross(cfg hx.Config, meta *hx.Meta) []string {
 		nrand, reps = 24, 8
 	}
 	for i := 0; i < nrand; i++ {
-		mods = append(mods, crossRandom(r.Fork(uint64(i)), i))
+		seed := r.U64()
+		m := crossRandom(hx.NewRand(seed), i, "")
+		m.older = crossRandom(hx.NewRand(seed), i, "int32").files
+		mods = append(mods, m)
 	}
 	var mu sync.Mutex
 	var lines []string
@@ -182,6 +208,27 @@ func runCross(cfg hx.Config, meta *hx.Meta) []string {
 			nrun++
 			return hx.Goderive(cfg.Goderive, filepath.Join(root, dir), args...)
 		}
+		// the output for an earlier version of the sources (generated package by package, dependencies first)
+		var stale map[string][]byte
+		if m.older != nil {
+			hx.WriteFiles(root, m.older)
+			stale = map[string][]byte{}
+			for _, p := range m.pkgs {
+				g := run(".", "m/"+p)
+				b, err := os.ReadFile(gen(p))
+				if g.Exit != 0 || err != nil {
+					stale = nil
+					break
+				}
+				stale[p] = b
+			}
+			hx.WriteFiles(root, m.files)
+			if stale == nil {
+				mu.Lock()
+				meta.Count("e2e/cross-package module without an earlier version (its generation failed)")
+				mu.Unlock()
+			}
+		}
 		// reference: every package by an invocation of its own, dependencies first
 		ref := map[string][]byte{}
 		for _, p := range m.pkgs {
@@ -209,10 +256,17 @@ func runCross(cfg hx.Config, meta *hx.Meta) []string {
 		type state struct {
 			name   string
 			remove []string
+			stale  []string // packages whose derived.gen.go is the output for the earlier version of the sources
 		}
-		states := []state{{"from scratch", m.pkgs}, {"over the previous output", nil}}
+		states := []state{{"from scratch", m.pkgs, nil}, {"over the previous output", nil, nil}}
+		if stale != nil {
+			states = append(states, state{"over the output for an earlier version of the sources", nil, m.pkgs})
+			for _, p := range m.pkgs {
+				states = append(states, state{"derived.gen.go of " + p + " is the output for an earlier version of the sources", nil, []string{p}})
+			}
+		}
 		for _, p := range m.pkgs {
-			states = append(states, state{"derived.gen.go of " + p + " missing", []string{p}})
+			states = append(states, state{"derived.gen.go of " + p + " missing", []string{p}, nil})
 			var others []string
 			for _, q := range m.pkgs {
 				if q != p {
@@ -220,7 +274,7 @@ func runCross(cfg hx.Config, meta *hx.Meta) []string {
 				}
 			}
 			if len(m.pkgs) > 2 {
-				states = append(states, state{"only derived.gen.go of " + p + " present", others})
+				states = append(states, state{"only derived.gen.go of " + p + " present", others, nil})
 			}
 		}
 		rel := func(ps []string, pre string) []string {
@@ -313,6 +367,9 @@ func runCross(cfg hx.Config, meta *hx.Meta) []string {
 					for _, p := range st.remove {
 						os.Remove(gen(p))
 					}
+					for _, p := range st.stale {
+						os.WriteFile(gen(p), stale[p], 0o644)
+					}
 					g := run(v.dir, v.args...)
 					check(fmt.Sprintf("goderive %s (%s; %s)", strings.Join(v.args, " "), v.name, st.name), g, "goderive "+strings.Join(v.args, " "), m.pkgs)
 				}
@@ -321,12 +378,19 @@ func runCross(cfg hx.Config, meta *hx.Meta) []string {
 		// each package alone, however it is spelled; its dependencies are generated
 		for _, p := range m.pkgs {
 			for _, v := range []variant{{"alone ./" + p, ".", []string{"./" + p}}, {"alone m/" + p, ".", []string{"m/" + p}}, {"inside " + p, p, []string{"."}}} {
-				for _, own := range []bool{false, true} {
+				for own := 0; own < 3; own++ {
 					restore()
 					st := "over the previous output"
-					if own {
+					if own == 1 {
 						os.Remove(gen(p))
 						st = "its derived.gen.go missing"
+					}
+					if own == 2 {
+						if stale == nil {
+							continue
+						}
+						os.WriteFile(gen(p), stale[p], 0o644)
+						st = "its derived.gen.go is the output for an earlier version of the sources"
 					}
 					g := run(v.dir, v.args...)
 					check(fmt.Sprintf("goderive %s (%s; %s)", strings.Join(v.args, " "), v.name, st), g, "goderive "+strings.Join(v.args, " "), []string{p})
